@@ -101,6 +101,11 @@ def check_run(spec, obs, ref, run_idx=0, cancelled_ok=None):
     rres = ref['result']
     causes = rres[1] if rres[0] == 'fail' else []
     if obs['verdict'] == 'deadlock' and not cancel:
+        # a hang is also a failure of the construct the pipeline is built from: the fallback / the selected branch / the next
+        # iteration never happens and nothing is reported
+        for pid, flag, what in (('C09', 'has_switch', 'switch'), ('C10', 'has_oneof', 'one-of'), ('C11', 'has_rec', 'recurrent subgraph')):
+            if ref['flags'].get(flag):
+                P[pid].append('the run hangs: the %s neither yields a value nor reports its documented error' % what)
         P['C01'].append('no outcome under this completion order: the run hangs although the dataflow evaluation gives %s'
                         % ('a value' if rres[0] == 'ok' else 'a failure'))
     # ---- C01 / C05 outcome
